@@ -236,6 +236,9 @@ pub struct Fiber {
   pub error_in_handler: Ghost<bool>,
   /// the call frames (function, argument count), innermost last
   pub frames: Vec<Frame>,
+  /// ghost: index in `stack` of the current frame's first slot (`stack_start`), and the current frame's captures
+  pub base: Ghost<int>,
+  pub caps: Ghost<CapturesRef>,
 }
 
 #[derive(Clone, Copy, PartialEq, Eq, Structural)]
@@ -248,14 +251,28 @@ pub struct Frame { pub fun: FunRef, pub captures: CapturesRef, pub arg_count: u8
 /// frame of the stack operations: nothing but the operand stack changes
 pub open spec fn only_stack(o: &Fiber, n: &Fiber) -> bool {
   n.state == o.state && n.me == o.me && n.pool == o.pool && n.used == o.used && n.handlers == o.handlers && n.error == o.error && n.error_in_handler == o.error_in_handler
-    && n.frames == o.frames
+    && n.frames == o.frames && n.base == o.base && n.caps == o.caps
 }
 
 /// frame of the channel / scheduling operations: handlers and the in-flight error are untouched
-pub open spec fn only_chan(o: &Fiber, n: &Fiber) -> bool { n.handlers == o.handlers && n.error == o.error && n.error_in_handler == o.error_in_handler && n.frames == o.frames }
+pub open spec fn only_chan(o: &Fiber, n: &Fiber) -> bool { n.handlers == o.handlers && n.error == o.error && n.error_in_handler == o.error_in_handler && n.frames == o.frames && n.base == o.base && n.caps == o.caps }
 
 impl Fiber {
   pub fn frames(&self) -> (r: &Vec<Frame>) ensures r == &self.frames { &self.frames }
+
+  /// R9: `*self.stack_start().offset(slot)` — a slot of the current frame through the raw frame pointer
+  #[verifier::external_body]
+  pub fn frame_slot_get(&self, slot: isize) -> (r: Value)
+    requires 0 <= self.base@ + slot < self.stack@.len()
+    ensures r == self.stack@[self.base@ + slot]
+  { Value { bits: 0 } }
+  #[verifier::external_body]
+  pub fn frame_slot_set(&mut self, slot: isize, value: Value)
+    requires 0 <= old(self).base@ + slot < old(self).stack@.len()
+    ensures final(self).stack@ == old(self).stack@.update(old(self).base@ + slot, value), only_stack(old(self), final(self))
+  { }
+  #[verifier::external_body]
+  pub fn captures(&self) -> (r: CapturesRef) ensures r == self.caps@ { CapturesRef { p: 0 } }
 
   pub fn error(&self) -> (r: Option<InstRef>) ensures r == self.error { self.error }
 
@@ -414,9 +431,11 @@ pub struct Vm {
   /// ghost (imports unit): the module cache, fully resolved path -> module identity; functions handed to new fibers by this handler
   pub module_cache: Ghost<Map<LyStr, usize>>,
   pub spawned: Ghost<Seq<FunRef>>,
+  /// ghost: contents of the LyBox objects (captured locals), box object -> value
+  pub boxes: Ghost<Map<ObjectRef, Value>>,
 }
 /// the ghost components only some units look at are untouched
-pub open spec fn aux_same(o: &Vm, n: &Vm) -> bool { n.ran == o.ran && n.module_cache == o.module_cache && n.spawned == o.spawned }
+pub open spec fn aux_same(o: &Vm, n: &Vm) -> bool { n.ran == o.ran && n.module_cache == o.module_cache && n.spawned == o.spawned && n.boxes == o.boxes }
 
 pub uninterp spec fn code_u8(ip: int) -> u8;
 pub uninterp spec fn code_u16(ip: int) -> u16;
@@ -571,6 +590,80 @@ impl Vm {
             final(self).fiber == old(self).fiber, final(self).ip == old(self).ip, final(self).raised == old(self).raised, final(self).constants == old(self).constants,
             final(self).builtin == old(self).builtin, final(self).queued == old(self).queued, final(self).cache == old(self).cache, final(self).heap == old(self).heap, final(self).called == old(self).called, final(self).call_log == old(self).call_log, final(self).capture_stub == old(self).capture_stub
   { ChanRef { p: 0 } }
+}
+
+// ---- locals, boxes (captured locals) and captures (C01, C06, C12's abstract machine is this behaviour) ------------------
+pub uninterp spec fn undefined_value() -> Value;
+#[verifier::external_body] pub exec const VALUE_UNDEFINED: Value ensures VALUE_UNDEFINED == undefined_value() { Value { bits: 0 } }
+/// ObjRef<LyBox>
+#[derive(Clone, Copy, PartialEq, Eq, Structural)]
+pub struct BoxObj { pub p: usize }
+pub uninterp spec fn from_box(b: BoxObj) -> Value;
+pub uninterp spec fn box_obj(b: BoxObj) -> ObjectRef;
+impl IntoValue for BoxObj {
+  open spec fn into_value_spec(self) -> Value { from_box(self) }
+  #[verifier::external_body] fn into_value(self) -> (r: Value) { Value { bits: 0 } }
+}
+/// a box value is an object of kind LyBox, and it is the boxing of its own object
+pub broadcast axiom fn axiom_box_value(b: BoxObj)
+  ensures v_is_obj(#[trigger] from_box(b)), v_obj(from_box(b)) == box_obj(b), o_kind(box_obj(b)) == ObjectKind::LyBox,
+;
+pub uninterp spec fn capture_box(c: CapturesRef, i: int) -> ObjectRef;
+pub uninterp spec fn captures_len(c: CapturesRef) -> int;
+impl Vm {
+  /// allocate a box holding `value` (manage_obj(LyBox::new(value)) / LyBox::default())
+  #[verifier::external_body]
+  pub fn manage_box(&mut self, value: Value) -> (r: BoxObj)
+    ensures !old(self).boxes@.dom().contains(box_obj(r)), final(self).boxes@ == old(self).boxes@.insert(box_obj(r), value),
+            final(self).fiber == old(self).fiber, final(self).ip == old(self).ip, final(self).raised == old(self).raised, final(self).builtin == old(self).builtin
+  { BoxObj { p: 0 } }
+  /// R9: `X.to_obj().to_box().value` read / write through the GC pointer
+  #[verifier::external_body]
+  pub fn box_get(&self, b: ObjectRef) -> (r: Value) requires o_kind(b) == ObjectKind::LyBox ensures r == self.boxes@[b] { Value { bits: 0 } }
+  #[verifier::external_body]
+  pub fn box_set(&mut self, b: ObjectRef, value: Value)
+    requires o_kind(b) == ObjectKind::LyBox
+    ensures final(self).boxes@ == old(self).boxes@.insert(b, value), final(self).fiber == old(self).fiber, final(self).ip == old(self).ip, final(self).raised == old(self).raised, final(self).builtin == old(self).builtin
+  { }
+  /// the (wrongly module-level) name lookup of op_get_box's undefined-variable message
+  #[verifier::external_body] pub fn verif_symbol_name_by_slot(&self, slot: usize) -> (r: Option<LyStr>) { None }
+  /// Captures::get_capture_value / set_capture_value: the i-th capture is a box
+  #[verifier::external_body]
+  pub fn capture_get(&self, c: CapturesRef, i: usize) -> (r: Value) requires (i as int) < captures_len(c) ensures r == self.boxes@[capture_box(c, i as int)] { Value { bits: 0 } }
+  #[verifier::external_body]
+  pub fn capture_set(&mut self, c: CapturesRef, i: usize, value: Value)
+    requires (i as int) < captures_len(c)
+    ensures final(self).boxes@ == old(self).boxes@.insert(capture_box(c, i as int), value), final(self).fiber == old(self).fiber, final(self).ip == old(self).ip, final(self).raised == old(self).raised, final(self).builtin == old(self).builtin
+  { }
+}
+
+impl Fiber {
+  /// real: `stack_slice(n)` = the top n slots as a slice through the raw stack pointer
+  #[verifier::external_body]
+  pub fn stack_copy(&self, count: usize) -> (r: Vec<Value>)
+    requires count <= self.stack@.len()
+    ensures r@ == self.stack@.subrange(self.stack@.len() - count, self.stack@.len() as int)
+  { Vec::new() }
+}
+
+
+// ---- list / tuple literals (C01): the elements are the top n stack values in stack (= source) order -----------------------
+#[derive(Clone, Copy, PartialEq, Eq, Structural)]
+pub struct SeqObj { pub p: usize }          // ObjRef of a List or a Tuple
+pub uninterp spec fn from_seqobj(l: SeqObj) -> Value;
+pub uninterp spec fn seq_elems(l: SeqObj) -> Seq<Value>;
+pub uninterp spec fn seq_is_list(l: SeqObj) -> bool;
+impl IntoValue for SeqObj {
+  open spec fn into_value_spec(self) -> Value { from_seqobj(self) }
+  #[verifier::external_body] fn into_value(self) -> (r: Value) { Value { bits: 0 } }
+}
+impl Vm {
+  /// manage_obj(list!(args)) / manage_obj(args): a fresh list / tuple holding a copy of the slice
+  #[verifier::external_body]
+  pub fn manage_seq(&mut self, elems: &[Value], list: bool) -> (r: SeqObj)
+    ensures seq_elems(r) == elems@, seq_is_list(r) == list, final(self).fiber == old(self).fiber, final(self).ip == old(self).ip, final(self).raised == old(self).raised,
+            final(self).builtin == old(self).builtin, aux_same(old(self), final(self))
+  { SeqObj { p: 0 } }
 }
 
 // R12: if_let_obj! / to_obj_kind! copied from laythe_core/src/macros.rs with the `$crate::` prefixes and `use` lines removed
